@@ -507,7 +507,7 @@ fn main() {
     }
     wb.flush();
     let mut w = CaseWriter::new(&args.out, "cases_c09_hist", HEADER, "c09case", "check_case", "prop_case", if args.thorough() { 30 } else { 9 });
-    let nhist = if args.thorough() { 1800 } else { 144 };
+    let nhist = if args.thorough() { 1200 } else { 144 };
     let mut seen = std::collections::HashSet::new();
     for h in 0..nhist {
         let kind = match h % 12 { 0 | 1 => Kind::SharedKey, 2 => Kind::ForgedFirst, 3 | 4 => Kind::Evict, 5 => if h % 24 == 5 { Kind::V6Scope } else { Kind::Mixed }, _ => Kind::Mixed };
